@@ -362,6 +362,7 @@ class Interp:
         from . import summaries, modular
         self._static_hulls = {}
         self._heavy = {}
+        self._scaled_cache = {}
         self.summ = summaries.Summaries(self)
         self.mod = modular.Modular(self)
 
@@ -1833,6 +1834,64 @@ class Interp:
             return [st]
         return [st]
 
+    # -- results that rescale another quantity (audit/contracts.py: SCALED_RESULTS) ----------
+    def _scaled_info(self, inst, spec):
+        key = (inst["id"], spec["consumer"])
+        info = self._scaled_cache.get(key)
+        if info is not None:
+            return info
+        from ..effects import _place_reads, _ops_of_rvalue
+        reads = set(pl["l"] for pl in _place_reads(inst))
+        # backward slice (flow-insensitive, over locals) from the consumer's argument
+        acc = set()
+        for b in inst["blocks"]:
+            t = b["t"]
+            if t.get("k") == "call" and t.get("callee") is not None:
+                c = self.ctx.mono.get(t["callee"])
+                if c is not None and c["dpath"] == spec["consumer"] and len(t["args"]) > spec["arg"]:
+                    o = t["args"][spec["arg"]]
+                    pl = o.get("copy") or o.get("move")
+                    if pl:
+                        acc.add(pl["l"])
+        changed = bool(acc)
+        while changed:
+            changed = False
+            for b in inst["blocks"]:
+                for s_ in b["s"]:
+                    if s_["k"] != "assign" or s_["place"]["l"] not in acc:
+                        continue
+                    for o in _ops_of_rvalue(s_["rv"]):
+                        pl = o.get("copy") or o.get("move")
+                        if pl and pl["l"] not in acc:
+                            acc.add(pl["l"])
+                            changed = True
+        acc = set(l for l in acc if inst["locals"][l].get("k") in ("int", "tuple"))
+        info = (reads, acc)
+        self._scaled_cache[key] = info
+        return info
+
+    def scaled_drop_check(self, st, fr, inst, t, callee, span):
+        from audit.contracts import SCALED_RESULTS
+        spec = SCALED_RESULTS.get(callee["dpath"])
+        if spec is None or "blocks" not in inst:
+            return
+        reads, acc = self._scaled_info(inst, spec)
+        d = t["dest"]
+        kind = "scale-consumed: result of %s" % callee["dpath"].rsplit("::", 1)[-1]
+        if d["p"] or d["l"] in reads or d["l"] == 0:
+            self.ctx.oblige(kind, True, inst, span, "")      # consumed (or passed on): recorded so that the rule is never vacuous
+            return
+        bad = []
+        for l in sorted(acc):
+            for key, a in st.env.frame(fr).items():
+                if key[1] != l:
+                    continue
+                if is_int(a) and st.get_iv(a) != (0, 0):
+                    bad.append("_%d%s in %s" % (l, "".join(".%s" % (x[1],) for x in key[2:] if isinstance(x, tuple)), st.get_iv(a)))
+        self.ctx.oblige(kind, not bad and bool(acc), inst, span,
+                        ("the returned shift is dropped while a value that flows into %s may be non-zero: %s" % (spec["consumer"].rsplit("::", 1)[-1], ", ".join(bad[:4])))
+                        if bad else ("no value flows into %s" % spec["consumer"] if not acc else ""))
+
     # -- calls ------------------------------------------------------------------------
     def do_call(self, st, fr, inst, t):
         ctx = self.ctx
@@ -1857,6 +1916,7 @@ class Interp:
             ctx.lib_calls.append((st.copy(), args, inst, span))
             self.write_place(st, fr, inst, t["dest"], new_top(), span)
             return [st] if t["t"] is not None else []
+        self.scaled_drop_check(st, fr, inst, t, callee, span)
         ctx.callstack.append((inst, span))
         try:
             res = None
